@@ -961,7 +961,10 @@ class TupleOf(DataType):
         return tuple(sub.import_value(elem) for sub, elem in zip(self.members, value))
 
     def format_value(self, value, unit=True):
-        return f"({', '.join([sub.format_value(elem, unit) for sub, elem in zip(self.members, value)])})"
+        items = [sub.format_value(elem, unit) for sub, elem in zip(self.members, value)]
+        if len(items) == 1:
+            items.append('')  # (5,) and not (5), which is no tuple when read back
+        return f"({', '.join(items)})"
 
     def compatible(self, other):
         if not isinstance(other, TupleOf):
